@@ -99,6 +99,22 @@ def work(tc):
                     balanced = False
             notes.append('events of %s differ from the reference (balanced=%s, enters==plain: %s): %s vs %s' % (
                 name, balanced and not stack, [e[2:] for e in evs if e[0] == 'E'] == plain, evs[:12], ref.events()[:12]))
+        # (b2) event view of a partially advanced iterator (several pending entries): Iter::next once, then Iter::event;
+        #      the Enter sequence must be the rest of the plain iteration, Leave events properly nested
+        okk, itv4 = mdl.call_mir(it, 'into_iter', [vref], trait='IntoIterator')
+        cell4 = [itv4]
+        first = it.concretize(it.run_func(f_iter_next, [Ref(cell4, 0)]))
+        if first.variant == 'Some' and len(exp) > 1:
+            ev4 = it.run_func(f_event, [cell4[0]])
+            evs4 = []
+            for x in drain(it, f_ev_next, ev4):
+                evs4.append(('E ' if x.variant == 'Enter' else 'L ') + refnode_label(x.fields[0]))
+            want4 = []
+            for c in ref.children:
+                c.events(want4)
+            if evs4 != want4:
+                notes.append('event view of the iterator of %s after one next(): enters %s, rest of the plain iteration %s' % (
+                    name, [e[2:] for e in evs4 if e[0] == 'E'][:10], exp[1:11]))
         # (c) RefNode::T(&v).into_iter()  (via From<&T> for RefNode)
         okk, rn = mdl.call_mir(it, 'from', [vref], ret='RefNode', trait='From')
         if okk:
@@ -137,6 +153,20 @@ def work(tc):
                 got = r.fields[0] if r.variant == 'Some' else None
                 if got != want or (got is not None and it.env.get('last_get_unchecked') != (ls[0], ls[-1] + 1)):
                     notes.append('%s(%s) returns bytes %r, expected [%d,%d)' % (fn.name.split('::')[-1], name, it.env.get('last_get_unchecked'), ls[0], ls[-1] + 1))
+        # (f) get_str_trim of the node's children tuple (&x.nodes: several roots at once)
+        if type(val) is Struct and val.fields and type(val.fields[0]) is Tup and len(val.fields[0].fields) > 1:
+            try:
+                r = it.concretize(it.run_func(f_get_str_trim, [Ref([st], 0), Ref(val.fields, 0)]))
+                ls = [o for o, ws in leaves if not ws]
+                if ls:
+                    want = 'x' * (ls[-1] + 1 - ls[0])
+                    got = r.fields[0] if r.variant == 'Some' else None
+                    if got != want or it.env.get('last_get_unchecked') != (ls[0], ls[-1] + 1):
+                        notes.append('get_str_trim(&%s.nodes) returns bytes %r, expected [%d,%d)' % (name, it.env.get('last_get_unchecked'), ls[0], ls[-1] + 1))
+                elif r.variant != 'None':
+                    notes.append('get_str_trim(&%s.nodes) = %r, expected None' % (name, r))
+            except Inconclusive:
+                pass
         return {'notes': notes, 'shape': [str(d) for d in devs][:0], 'size': len(exp)}
 
     mdl = Models()
